@@ -599,3 +599,221 @@ Section RegionProofs.
           rewrite (firstn_skipn_seq e) by nia. simpl. f_equal. f_equal. nia.
   Qed.
 End RegionProofs.
+
+(* ------------------------------------------------------------------------------------------ *)
+(** * First write of a new image: the sequential fill stream covers the image exactly *)
+
+Lemma skipn_skipn' : forall {A} a b (l : list A), skipn a (skipn b l) = skipn (b + a) l.
+Proof.
+  intros A a b. induction b; intros l; simpl; auto. destruct l; simpl; auto. destruct a; reflexivity.
+Qed.
+
+Lemma strided_total : forall xdim ydim sx sy tx ty cx cy lo hi,
+  1<=tx -> 1<=ty -> 1<=cx -> 1<=cy -> sx + (cx-1)*tx < xdim -> sy + (cy-1)*ty < ydim -> lo = sx -> hi = xdim - (sx + (cx-1)*tx+1) ->
+  sy*xdim + lo + (cy*(cx*1 + (cx-1)*(tx-1)) + (cy-1)*((ty-1)*xdim + (hi+lo))) + hi + (ydim - (sy+(cy-1)*ty+1))*xdim = xdim*ydim.
+Proof.
+  intros xdim ydim sx sy tx ty cx cy lo hi Htx Hty Hcx Hcy Hx Hy Elo Ehi.
+  destruct cx as [|c]; [lia|]. destruct tx as [|t]; [lia|]. destruct cy as [|c2]; [lia|]. destruct ty as [|t2]; [lia|].
+  replace (S c - 1) with c in * by lia. replace (S t - 1) with t in * by lia.
+  replace (S c2 - 1) with c2 in * by lia. replace (S t2 - 1) with t2 in * by lia.
+  assert (R1 : S c * 1 + c * t + (hi + lo) = xdim) by (subst; nia).
+  remember (S c * 1 + c * t) as W. remember (hi + lo) as hl.
+  assert (R2 : ydim = (ydim - (sy + c2 * S t2 + 1)) + sy + c2 * S t2 + 1) by lia.
+  remember (ydim - (sy + c2 * S t2 + 1)) as Z.
+  assert (E : sy * xdim + lo + (S c2 * W + c2 * (t2 * xdim + hl)) + hi + Z * xdim = sy*xdim + S c2 * (W + hl) + c2*t2*xdim + Z*xdim) by (subst hl; ring).
+  rewrite E, R1, R2. ring.
+Qed.
+Lemma solid_total : forall xdim ydim sx sy cx cy lo hi,
+  1<=cx -> 1<=cy -> sx + (cx-1)*1 < xdim -> sy + (cy-1)*1 < ydim -> lo = sx -> hi = xdim - (sx + (cx-1)*1+1) ->
+  sy*xdim + lo + (cy*cx + (cy-1)*(hi+lo)) + hi + (ydim - (sy+(cy-1)*1+1))*xdim = xdim*ydim.
+Proof.
+  intros. destruct cx as [|c]; [lia|]. destruct cy as [|c2]; [lia|].
+  replace (S c - 1) with c in * by lia. replace (S c2 - 1) with c2 in * by lia.
+  assert (R1 : S c + (hi + lo) = xdim) by (subst; lia).
+  assert (R2 : ydim = (ydim - (sy + c2 * 1 + 1)) + sy + c2 + 1) by lia.
+  remember (ydim - (sy + c2 * 1 + 1)) as Z. remember (hi + lo) as hl.
+  assert (E : sy * xdim + lo + (S c2 * S c + c2 * hl) + hi + Z * xdim = sy*xdim + S c2 * (S c + hl) + Z*xdim) by (subst hl; ring).
+  rewrite E, R1, R2. ring.
+Qed.
+
+Section FillProofs.
+  Context {P : Type}.
+
+  Definition wdata (ops : list (wop P)) : list P :=
+    flat_map (fun o => match o with WWrite l => l | WSeek _ => [] end) ops.
+  Definition noseekb (ops : list (wop P)) : bool :=
+    forallb (fun o => match o with WWrite _ => true | WSeek _ => false end) ops.
+  Definition wlen (ops : list (wop P)) : nat := length (wdata ops).
+
+  Lemma wlen_app : forall a b, wlen (a ++ b) = wlen a + wlen b.
+  Proof. intros. unfold wlen, wdata. rewrite flat_map_app, app_length. reflexivity. Qed.
+  Lemma noseekb_app : forall a b, noseekb (a ++ b) = noseekb a && noseekb b.
+  Proof. intros. apply forallb_app. Qed.
+
+  (** without seeks every write appends *)
+  Lemma run_noseek : forall ops (e : list P),
+      noseekb ops = true -> run_wops ops e (length e) = (e ++ wdata ops, length e + wlen ops).
+  Proof.
+    induction ops as [|o ops IH]; intros e H; simpl.
+    - rewrite app_nil_r. unfold wlen. simpl. f_equal. lia.
+    - destruct o as [n|l]; simpl in H; [discriminate|].
+      unfold stream_write. rewrite firstn_all, skipn_all2 by lia. rewrite app_nil_r.
+      replace (length e + length l) with (length (e ++ l)) by (rewrite app_length; reflexivity).
+      rewrite IH by auto. unfold wlen. simpl. rewrite !app_length, <- app_assoc. f_equal. lia.
+  Qed.
+
+  Variable fl : list P.
+
+  Lemma fill_lines_ok : forall lsz n, noseekb (fill_lines fl lsz n) = true /\ wlen (fill_lines fl lsz n) = n * Nat.min lsz (length fl).
+  Proof.
+    intros lsz n. unfold fill_lines. induction n; simpl; auto. destruct IHn as [A B]. split; auto.
+    change (wfill fl lsz :: repeat (wfill fl lsz) n) with ([wfill fl lsz] ++ repeat (wfill fl lsz) n).
+    rewrite wlen_app, B. unfold wlen. simpl. rewrite app_nil_r, firstn_length. lia.
+  Qed.
+
+  Lemma opt_w_ok : forall b k, noseekb (opt_w b (wfill fl k)) = true /\
+                               wlen (opt_w b (wfill fl k)) = if b then Nat.min k (length fl) else 0.
+  Proof.
+    intros b k. destruct b; simpl; split; auto. unfold wlen. simpl. rewrite app_nil_r, firstn_length. reflexivity.
+  Qed.
+
+  Lemma wlen_cons_write : forall l ops, wlen (WWrite l :: ops) = length l + wlen ops.
+  Proof. intros. unfold wlen. simpl. rewrite app_length. reflexivity. Qed.
+
+  Lemma solid_fill_rows_ok : forall n plen hl tmp,
+      length tmp = n * plen -> hl <= length fl ->
+      noseekb (solid_fill_rows n plen hl fl tmp) = true /\
+      wlen (solid_fill_rows n plen hl fl tmp) = n * plen + (n - 1) * hl.
+  Proof.
+    induction n; intros plen hl tmp Hl Hh; simpl; auto.
+    destruct (IHn plen hl (skipn plen tmp)) as [A B]; [rewrite skipn_length; lia | auto |].
+    destruct (opt_w_ok ((0 <? hl) && (0 <? n)) hl) as [C D].
+    split.
+    - rewrite noseekb_app, C, A. reflexivity.
+    - rewrite wlen_cons_write, wlen_app, B, D, firstn_length.
+      rewrite Nat.min_l by lia. rewrite Nat.min_l by lia.
+      destruct n; simpl; [rewrite andb_false_r; lia|].
+      destruct hl; simpl; lia.
+  Qed.
+
+  Lemma strided_fill_px_ok : forall n gap one (fx : bool) tmp,
+      n * one <= length tmp -> (2 <= n -> gap <= length fl) -> (fx = false -> gap = 0) ->
+      noseekb (fst (strided_fill_px n gap one fx fl tmp)) = true /\
+      wlen (fst (strided_fill_px n gap one fx fl tmp)) = n * one + (n - 1) * gap /\
+      snd (strided_fill_px n gap one fx fl tmp) = skipn (n * one) tmp.
+  Proof.
+    induction n; intros gap one fx tmp Hl Hg Hfx; simpl; auto.
+    specialize (IHn gap one fx (skipn one tmp)).
+    destruct (strided_fill_px n gap one fx fl (skipn one tmp)) as [ops t] eqn:E. simpl in *.
+    destruct IHn as (A & B & C); [rewrite skipn_length; lia | intros; apply Hg; lia | auto |].
+    destruct (opt_w_ok (fx && (0 <? n)) gap) as [D F].
+    split; [|split].
+    - rewrite noseekb_app, D, A. reflexivity.
+    - rewrite wlen_cons_write, wlen_app, B, F, firstn_length.
+      rewrite (Nat.min_l one) by lia.
+      destruct n; simpl; [rewrite andb_false_r; lia|].
+      rewrite Nat.min_l by (apply Hg; lia).
+      destruct fx; simpl; [lia|]. rewrite (Hfx eq_refl). lia.
+    - rewrite C. rewrite skipn_skipn'. first [reflexivity | f_equal; lia].
+  Qed.
+
+  Lemma strided_fill_rows_ok : forall n cxn gap one (fx fy : bool) tyn lsz hl tmp,
+      length tmp = n * (cxn * one) -> (2 <= cxn -> gap <= length fl) -> (fx = false -> gap = 0) -> hl <= length fl ->
+      lsz <= length fl -> (fy = false -> tyn - 1 = 0) ->
+      noseekb (strided_fill_rows n cxn gap one fx fy tyn lsz hl fl tmp) = true /\
+      wlen (strided_fill_rows n cxn gap one fx fy tyn lsz hl fl tmp) =
+      n * (cxn * one + (cxn - 1) * gap) + (n - 1) * ((tyn - 1) * lsz + hl).
+  Proof.
+    induction n; intros cxn gap one fx fy tyn lsz hl tmp Hl Hg Hfx Hh Hls Hfy; simpl; auto.
+    pose proof (strided_fill_px_ok cxn gap one fx tmp) as Hpx.
+    destruct (strided_fill_px cxn gap one fx fl tmp) as [ops t] eqn:E. simpl in Hpx.
+    destruct Hpx as (A & B & C); [lia | auto | auto |].
+    destruct (IHn cxn gap one fx fy tyn lsz hl t) as [A' B']; auto.
+    { rewrite C, skipn_length. lia. }
+    destruct (opt_w_ok ((0 <? hl) && (0 <? n)) hl) as [D F].
+    destruct (fill_lines_ok lsz (tyn - 1)) as [L1 L2].
+    split.
+    - rewrite !noseekb_app, A, D, A'. destruct (fy && (0 <? n)); simpl; auto. rewrite L1. reflexivity.
+    - rewrite !wlen_app, B, F, B'.
+      rewrite Nat.min_l by lia.
+      assert (Elines : wlen (if fy && (0 <? n) then fill_lines fl lsz (tyn - 1) else []) =
+                       if (0 <? n) then (tyn - 1) * lsz else 0).
+      { destruct fy; simpl.
+        - destruct (0 <? n); [rewrite L2, Nat.min_l by lia; reflexivity | reflexivity].
+        - rewrite (Hfy eq_refl). destruct (0 <? n); reflexivity. }
+      rewrite Elines.
+      destruct n; simpl; [rewrite andb_false_r; lia|].
+      destruct hl; simpl; lia.
+  Qed.
+
+  (** The fill stream of the first write never seeks and has exactly xdim*ydim pixels: the new image
+      element covers the whole image -- no missing trailing rows, no extra lines (DESIGN section 8 #7). *)
+  Lemma first_write_covers_image_lemma : forall xdim ydim r (data : list P),
+      length fl = xdim -> rgn_inside xdim ydim r = true -> whole_image xdim ydim r = false ->
+      length data = r_cx r * r_cy r ->
+      let ops := gr_write_ops true xdim ydim 1 r fl data in
+      noseekb ops = true /\ wlen ops = xdim * ydim /\
+      run_wops ops [] 0 = (wdata ops, xdim * ydim).
+  Proof.
+    intros xdim ydim r data Hfl Hin Hw Hd ops.
+    pose proof (inside_facts _ _ _ Hin) as (Htx & Hty & Hcx & Hcy & Hx & Hy).
+    assert (Hcore : noseekb ops = true /\ wlen ops = xdim * ydim).
+    { subst ops. unfold gr_write_ops. rewrite Hw.
+      unfold Gb, G, wr_fill_lo_cond, wr_fill_hi_cond, wr_fill_lo_size, wr_fill_hi_size, wr_fill_line_size,
+        wr_pix_len, wr_trail_to_0, wr_trail_from_0, wr_trail_to_1, wr_trail_from_1, wr_fill_stride_size.
+      rewrite ?Nat.mul_1_l.
+      set (lo := if 0 <? r_sx r then r_sx r else 0).
+      set (hi := if r_sx r + (r_cx r - 1) * r_tx r + 1 <? xdim then xdim - (r_sx r + (r_cx r - 1) * r_tx r + 1) else 0).
+      assert (Elo : lo = r_sx r) by (subst lo; destruct (r_sx r); reflexivity).
+      assert (Ehi : hi = xdim - (r_sx r + (r_cx r - 1) * r_tx r + 1)).
+      { subst hi. destruct (r_sx r + (r_cx r - 1) * r_tx r + 1 <? xdim) eqn:E; auto. apply Nat.ltb_ge in E. lia. }
+      destruct (fill_lines_ok xdim (r_sy r)) as [A1 B1].
+      destruct (opt_w_ok (0 <? lo) lo) as [A2 B2].
+      destruct (opt_w_ok (0 <? hi) hi) as [A4 B4].
+      destruct (solid_block r) eqn:Es.
+      - unfold solid_block in Es. apply andb_prop in Es. destruct Es as [E1 E2].
+        apply Nat.eqb_eq in E1. apply Nat.eqb_eq in E2.
+        destruct (solid_fill_rows_ok (r_cy r) (r_cx r) (hi + lo) data) as [A3 B3]; [lia | lia |].
+        destruct (fill_lines_ok xdim (ydim - (r_sy r + (r_cy r - 1) * r_ty r + 1))) as [A5 B5].
+        split.
+        + rewrite !noseekb_app, A1, A2, A3, A4, A5. reflexivity.
+        + rewrite !wlen_app, B1, B2, B3, B4, B5. rewrite !Nat.min_l by lia.
+          assert (Eo1 : (if 0 <? lo then lo else 0) = lo) by (destruct lo; reflexivity).
+          assert (Eo2 : (if 0 <? hi then hi else 0) = hi) by (destruct hi; reflexivity).
+          rewrite Eo1, Eo2. rewrite E1, E2 in *. clearbody lo hi.
+          pose proof (solid_total xdim ydim (r_sx r) (r_sy r) (r_cx r) (r_cy r) lo hi Hcx Hcy Hx Hy Elo Ehi) as T.
+          rewrite ?Nat.min_l by lia. lia.
+      - assert (Hfx : (1 <? r_tx r) = false -> r_tx r - 1 = 0) by (intros E; apply Nat.ltb_ge in E; lia).
+        assert (Hfy : (1 <? r_ty r) = false -> r_ty r - 1 = 0) by (intros E; apply Nat.ltb_ge in E; lia).
+        destruct (strided_fill_rows_ok (r_cy r) (r_cx r) (r_tx r - 1) 1 (1 <? r_tx r) (1 <? r_ty r) (r_ty r) xdim
+                                       (hi + lo) data) as [A3 B3]; [rewrite Hd; ring | intros H2; rewrite Hfl; assert (r_tx r * 1 <= (r_cx r - 1) * r_tx r) by nia; lia | exact Hfx | clearbody lo hi; subst lo hi; rewrite Hfl; clear - Hx; nia | rewrite Hfl; lia | exact Hfy |].
+        destruct (fill_lines_ok xdim (ydim - (r_sy r + (r_cy r - 1) * r_ty r + 1))) as [A5 B5].
+        split.
+        + rewrite !noseekb_app, A1, A2, A3, A4, A5. reflexivity.
+        + rewrite !wlen_app, B1, B2, B3, B4, B5. rewrite !Nat.min_l by lia.
+          assert (Eo1 : (if 0 <? lo then lo else 0) = lo) by (destruct lo; reflexivity).
+          assert (Eo2 : (if 0 <? hi then hi else 0) = hi) by (destruct hi; reflexivity).
+          rewrite Eo1, Eo2. clearbody lo hi.
+          pose proof (strided_total xdim ydim (r_sx r) (r_sy r) (r_tx r) (r_ty r) (r_cx r) (r_cy r) lo hi
+                                    Htx Hty Hcx Hcy Hx Hy Elo Ehi) as T.
+          rewrite ?Nat.min_l by lia. lia. }
+    destruct Hcore as [A B]. split; [|split]; auto.
+    pose proof (run_noseek ops [] A) as R. simpl in R. rewrite R, B. reflexivity.
+  Qed.
+End FillProofs.
+
+(** whole-image writes replace the image *)
+Lemma whole_write_lemma : forall {P} (e : option (list P)) xdim ydim r (f : P) (data : list P),
+    whole_image xdim ydim r = true -> length data = xdim * ydim ->
+    (forall l, e = Some l -> length l = xdim * ydim) ->
+    gr_write_px e xdim ydim r f data = data.
+Proof.
+  intros P e xdim ydim r f data Hw Hd He.
+  assert (Hc : 1 * r_cx r * r_cy r = length data).
+  { unfold whole_image in Hw. repeat (apply andb_prop in Hw; destruct Hw as [Hw ?]).
+    repeat match goal with H : (_ =? _) = true |- _ => apply Nat.eqb_eq in H end. subst. lia. }
+  unfold gr_write_px, gr_write_ops. rewrite Hw. rewrite Hc.
+  destruct e as [l|]; simpl; unfold stream_write; simpl; rewrite firstn_all.
+  - rewrite skipn_all2 by (rewrite (He l eq_refl); lia). apply app_nil_r.
+  - destruct (length data); simpl; apply app_nil_r.
+Qed.
